@@ -23,7 +23,9 @@ theorem skeleton_unchanged :
      Gen.Skel.conds_MuxHandleOption,
      Gen.Skel.stmts_MuxHandleOption,
      Gen.Skel.conds_Mux_ServeHTTP,
-     Gen.Skel.stmts_Mux_ServeHTTP)
+     Gen.Skel.stmts_Mux_ServeHTTP,
+     Gen.Skel.conds_TLSCredsOption,
+     Gen.Skel.stmts_TLSCredsOption)
   = (Expected.C20.conds_NewServer,
      Expected.C20.stmts_NewServer,
      Expected.C20.conds_HTTPHandlerOption,
@@ -31,7 +33,9 @@ theorem skeleton_unchanged :
      Expected.C20.conds_MuxHandleOption,
      Expected.C20.stmts_MuxHandleOption,
      Expected.C20.conds_Mux_ServeHTTP,
-     Expected.C20.stmts_Mux_ServeHTTP) := rfl
+     Expected.C20.stmts_Mux_ServeHTTP,
+     Expected.C20.conds_TLSCredsOption,
+     Expected.C20.stmts_TLSCredsOption) := rfl
 
 /-- the mux's entry for a mount pattern is in the table. -/
 theorem mount_entry_mem (patterns extras : List Path) (p : Path) (hp : p ∈ patterns)
